@@ -2,7 +2,8 @@
 
 Explicit-state BFS (engine dbmc) over every sequence of the real operations that write the
 `attempts` table (schedule_job, mark_job_creating/started/complete via the real driver wrappers,
-billing heartbeat handler, unschedule_job, Instance.deactivate with each reason) with times from a
+billing heartbeat handler, unschedule_job called with the running-sweep's record and through the real orphan sweep,
+Instance.deactivate with each reason) with times from a
 3-value clock, on two attempts of one job over a pool instance and a job-private instance.
 Oracle = the per-transition rules of the property statement on every attempts row.
 """
@@ -73,12 +74,20 @@ class H(dbmc.Harness):
                         out.append(('deactivate', inst, reason, t))
         if 'e1' not in existing:
             out.append(('complete', 1, 'e1', None, 'Error', None, None))
+        # the canceller's orphan sweep ends attempts through unschedule_job too, but hands it the whole attempts row
+        # (SELECT attempts.*) instead of the four keys the running-jobs sweep passes
+        if any(r['start_time'] is not None and r['end_time'] is None for r in w.table('attempts')):
+            for t in T[1:]:
+                out.append(('orphans_at', t))
         return out
 
     def apply(self, w, label):
         if label[0] == 'unschedule_at':
             w.now_ms = label[4]
             return ops.apply(w, ('unschedule',) + tuple(label[1:4]))
+        if label[0] == 'orphans_at':
+            w.now_ms = label[1]
+            return ops.apply(w, ('canceller', 'orphans'))
         return ops.apply(w, label)
 
     def pre_view(self, w):
